@@ -322,6 +322,13 @@ func (c *Conn) Output() []byte {
 	return b
 }
 
+// IsIdle reports whether the server is blocked reading with nothing queued.
+func (c *Conn) IsIdle() bool {
+	c.log.mu.Lock()
+	defer c.log.mu.Unlock()
+	return c.idle && len(c.inq) == 0 && !c.serverClosed
+}
+
 func (c *Conn) ServerClosed() bool {
 	c.log.mu.Lock()
 	defer c.log.mu.Unlock()
